@@ -190,7 +190,8 @@ def sync_group_ops(fk, rng):
 
 def one_config(rng, env, nops, with_sync):
     decl = mapdecl.rand_decl(rng)
-    fk = fakekernel.FakeKernel(possible=env["possible"], online=env["online"])
+    fk = fakekernel.FakeKernel(possible=env["possible"], online=env["online"], affinity=env.get("affinity"),
+                                pin=env.get("pin"))
     with fk:
         built = mapdecl.build(decl)
         d = Driver(rng, fk, decl, built)
@@ -209,7 +210,8 @@ def inherited_percpu_config(env, order):
     from ebpfcat.bpf import ProgType
     from ebpfcat.ebpf import EBPF
     from ebpfcat.arraymap import PerCPUArrayMap
-    fk = fakekernel.FakeKernel(possible=env["possible"], online=env["online"])
+    fk = fakekernel.FakeKernel(possible=env["possible"], online=env["online"], affinity=env.get("affinity"),
+                                pin=env.get("pin"))
     log = []
     with fk:
         pm = PerCPUArrayMap()
@@ -262,11 +264,15 @@ CHECK_DEADLOCK FALSE
 
     # 2. real code on the fake kernel
     host = fakekernel.possible_cpus()
+    # every kind of CPU count a host has is given its own value somewhere: possible >= online >= affinity of
+    # the process; on the real host the process is also really confined (taskset / cpuset / container)
     envs = [dict(name="host", possible=host, online=None),
             dict(name="sim-equal", possible=4, online=4),
             dict(name="sim-equal", possible=1, online=1),
-            dict(name="sim-hotplug", possible=8, online=2),
-            dict(name="sim-hotplug", possible=5, online=4)]
+            dict(name="sim-hotplug", possible=8, online=2, affinity=1),
+            dict(name="sim-hotplug", possible=5, online=4),
+            dict(name="sim-confined", possible=6, online=6, affinity=2),
+            dict(name="host-confined", possible=host, online=None, pin=1 if host > 1 else None)]
     nconf = 150 if ctx.quick else 1200
     nops = 30 if ctx.quick else 60
     runs = []
@@ -343,7 +349,8 @@ CHECK_DEADLOCK FALSE
             ctx.case_failed(case, f"{why}: {(e.get('label') or {}).get('op')} fmt={e.get('fmt')!r} -> bpf "
                                   f"{e['op']} on {e['type']} map (key {e['ks']}, value {e['vs']}) with key buffer "
                                   f"{e['keybuf']}, value buffer {e['valbuf']}, next-key buffer {e['nextbuf']}; "
-                                  f"possible CPUs {m['env']['possible']}, online {m['env'].get('online') or m['env'].get('online_seen')}")
+                                  f"possible CPUs {m['env']['possible']}, online {m['env'].get('online') or m['env'].get('online_seen')}, "
+                                  f"process confined to {m['env'].get('affinity') or m['env'].get('pin') or 'all'} ({m['env']['name']})")
     ctx.extra["api_operations"] = ops_seen
     ctx.extra["environments"] = envs
     ctx.assumptions.append("the fake kernel's transfer sizes follow kernel/bpf/syscall.c (bpf_map_value_size); "
@@ -359,21 +366,23 @@ def pred_f10(case, reason=None):
 
 
 def pred_cpu_count(case, reason=None):
-    """PerCPUReader.read sizes the buffer with os.cpu_count() (online CPUs), not the possible CPUs"""
+    """PerCPUReader.read sizes the buffer with another CPU count of the host (online CPUs, CPUs the process is
+    confined to) instead of the possible CPUs"""
     env = case["env"]
-    return (case["label"] or {}).get("op") == "percpu.read" and case["why"] == "value buffer too small" \
-        and env["online"] is not None and env["online"] < env["possible"] \
-        and case["event"]["valbuf"] == fakekernel.roundup8(case["event"]["vs"]) * env["online"]
+    counts = {env.get("online"), env.get("affinity"), env.get("pin"), env.get("online_seen")} - {None}
+    stride = fakekernel.roundup8(case["event"]["vs"])
+    return (case["label"] or {}).get("op") in ("percpu.read", "percpu-read") and case["why"] == "value buffer too small" \
+        and any(n < env["possible"] and case["event"]["valbuf"] == stride * n for n in counts)
 
 
 def classify(ctx):
-    tally = {"F10 hash variable read with its own format": 0, "per-CPU buffer from os.cpu_count()": 0,
+    tally = {"F10 hash variable read with its own format": 0, "per-CPU buffer from another CPU count than the possible CPUs": 0,
              "not explained": 0}
     for case, reason in ctx.failures:
         if pred_f10(case):
             tally["F10 hash variable read with its own format"] += 1
         elif pred_cpu_count(case):
-            tally["per-CPU buffer from os.cpu_count()"] += 1
+            tally["per-CPU buffer from another CPU count than the possible CPUs"] += 1
         else:
             tally["not explained"] += 1
     ctx.extra["failure_tally"] = tally
